@@ -447,29 +447,7 @@ def r2_capabilities(ctx) -> None:
         else:
             r.violation("C16.R2e", fy.qual, stmt_head(n), "the derived restriction is not the real directory of the pipeline file", loc)
     r.floor("C16.R2e", 6)
-    # sibling strip sites agree: wherever a document dict is stripped of one opt-in key it is stripped of all of them
-    r.rule("C16.R2f", "strip sites agree: every function that pops an opt-in key (allow_external_sources, allow_template_vars, vars_allowed_paths) from a document dict pops all three from it")
-    n_sites = 0
-    for q, fi in sorted(prog.funcs.items()):
-        if not fi.module.name.startswith("sigma.processing"):
-            continue
-        popped: dict[str, set[str]] = {}
-        first: dict[str, ast.AST] = {}
-        for c in walk_no_nested(fi.node):
-            if isinstance(c, ast.Call) and isinstance(c.func, ast.Attribute) and c.func.attr == "pop" and c.args and isinstance(c.args[0], ast.Constant) and c.args[0].value in CAP_FIELDS:
-                recv = unparse(c.func.value)
-                popped.setdefault(recv, set()).add(c.args[0].value)
-                first.setdefault(recv, c)
-        for recv, keys in popped.items():
-            n_sites += 1
-            loc = f"{fi.module.relpath}:{first[recv].lineno}"
-            missing = [k for k in CAP_FIELDS if k not in keys]
-            if missing:
-                r.violation("C16.R2f", q, f"{recv}.pop(...) strips {sorted(keys)} only", f"the document dict {recv} keeps {missing}: the sibling strip sites remove all three opt-in keys, so here the same document behaves differently (a smuggled key reaches the constructor: refused only by accident of its signature, or — for a class that accepts it — granted)", loc)
-            else:
-                r.ok("C16.R2f", q, f"{recv}: all three opt-in keys stripped", loc)
-    if n_sites < 2:
-        raise AnalysisError(f"only {n_sites} strip sites found (2 confirmed: ProcessingPipeline.from_dict, NestedFinalizer.from_dict)")
+
     # ---- R2c construction-from-document sites
     _r2c(ctx, carriers)
     r.floor("C16.R2b", 20)
